@@ -382,20 +382,113 @@ def build(tier):
     ddpg_next_ok = [raw_next, SymT(("clamp", MINA, MAXA, raw_next)), smoothed]
     P.specns["q_boot_ddpg"] = lambda v: z3.BoolVal(any(v == SymT(("value", "critic_target", (NXT_, x))) for x in ddpg_next_ok))
     P.contract("agilerl.algorithms.ddpg.DDPG.learn", variant="value-sources",
-               region=region("q_value = self.critic(obs, actions)", "with torch.no_grad()"),
+               region=region("q_value = ", "with torch.no_grad()"),
                params={"self": ac_self("DDPG", ["actor", "actor_target", "critic", "critic_target"]), "experiences": "opaque",
                        "noise_clip": (lambda ex, st, l: NC), "policy_noise": (lambda ex, st, l: PN), "obs": (lambda ex, st, l: OBS_),
                        "actions": (lambda ex, st, l: ACT_), "next_obs": (lambda ex, st, l: NXT_), "rewards": "opaque", "dones": "opaque"},
                requires=[], frame_fields=False, ensures=["same(q_value, q_online('critic'))", "q_boot_ddpg(q_value_next_state)"],
                replay="c08:bellman")
     P.contract("agilerl.algorithms.td3.TD3.learn", variant="value-sources",
-               region=region("q_value_1 = self.critic_1(states, actions)", "with torch.no_grad()"),
+               region=region("q_value_1 = ", "with torch.no_grad()"),
                params={"self": ac_self("TD3", ["actor", "actor_target", "critic_1", "critic_2", "critic_target_1", "critic_target_2"]), "experiences": "opaque",
                        "noise_clip": (lambda ex, st, l: NC), "policy_noise": (lambda ex, st, l: PN), "states": (lambda ex, st, l: OBS_),
                        "actions": (lambda ex, st, l: ACT_), "next_states": (lambda ex, st, l: NXT_), "rewards": "opaque", "dones": "opaque"},
                requires=[], frame_fields=False,
                ensures=["same(q_value_1, q_online('critic_1'))", "same(q_value_2, q_online('critic_2'))", "same(q_value_next_state, q_boot_twin)"],
                replay="c08:bellman")
+
+    # the delayed actor / target updates of DDPG and TD3: after the counter is advanced, the target networks are blended (each with its OWN
+    # online network) exactly when the new counter is a multiple of policy_freq, and not at all otherwise
+    class LossV:
+        def __neg__(self):
+            return self
+
+        def binop(self, ex, st, op, other, swapped):
+            return self
+
+        def getattr(self, ex, st, name):
+            if name in ("backward", "item", "mean", "detach"):
+                return Fn(model=lambda ex, st, a, k: (self if name in ("mean", "detach") else None), name=name)
+            raise Undecided(f"loss attribute {name}")
+    _symt_getattr = SymT.getattr
+
+    def symt_getattr(self, ex, st, name):
+        if name == "mean":
+            return Fn(model=lambda ex, st, a, k: LossV(), name=name)
+        return _symt_getattr(self, ex, st, name)
+    SymT.getattr = symt_getattr
+
+    class OptS:
+        def getattr(self, ex, st, name):
+            if name in ("zero_grad", "step"):
+                return Fn(model=lambda ex, st, a, k: None, name=name)
+            raise Undecided(f"optimizer attribute {name}")
+    C0, PF = z3.Int("learn_counter_before"), z3.Int("policy_freq")
+    P.axioms += [C0 >= 0, PF >= 1]
+    blended = []
+
+    def delayed_self(cls, names, opts):
+        def mk(ex, st, label):
+            blended.clear()
+            o = Obj("model." + cls, label="self")
+            o.fields.update({n: NetS2(n) for n in names})
+            o.fields.update({n: OptS() for n in opts})
+            o.fields.update(dict(learn_counter=C0, policy_freq=PF, accelerator=None,
+                                 soft_update=Fn(model=lambda ex, st, a, k: blended.append((getattr(a[0], "name", None), getattr(a[1], "name", None))), name="soft_update")))
+            return o
+        return mk
+
+    def delayed_ok(agent, pairs):
+        due = (C0 + 1) % PF == 0
+        got = sorted(blended)
+        return z3.And(z3ify(agent.fields["learn_counter"]) == C0 + 1, z3.Implies(due, z3.BoolVal(got == sorted(pairs))),
+                      z3.Implies(z3.Not(due), z3.BoolVal(got == [])))
+    P.specns.update(dict(delayed_ddpg=lambda a: delayed_ok(a, [("actor", "actor_target"), ("critic", "critic_target")]),
+                         delayed_td3=lambda a: delayed_ok(a, [("actor", "actor_target"), ("critic_1", "critic_target_1"), ("critic_2", "critic_target_2")])))
+    tail = region("self.learn_counter += 1", "if self.learn_counter % self.policy_freq")
+    P.contract("agilerl.algorithms.ddpg.DDPG.learn", variant="delayed-updates", region=tail,
+               params={"self": delayed_self("DDPG", ["actor", "actor_target", "critic", "critic_target"], ["actor_optimizer", "critic_optimizer"]),
+                       "experiences": "opaque", "noise_clip": "opaque", "policy_noise": "opaque", "obs": (lambda ex, st, l: OBS_),
+                       "critic_loss": (lambda ex, st, l: LossV())},
+               requires=[], frame_fields=False, ensures=["delayed_ddpg(self)"], replay="c08:soft_update")
+    P.contract("agilerl.algorithms.td3.TD3.learn", variant="delayed-updates", region=tail,
+               params={"self": delayed_self("TD3", ["actor", "actor_target", "critic_1", "critic_2", "critic_target_1", "critic_target_2"],
+                                            ["actor_optimizer", "critic_1_optimizer", "critic_2_optimizer"]),
+                       "experiences": "opaque", "noise_clip": "opaque", "policy_noise": "opaque", "states": (lambda ex, st, l: OBS_),
+                       "critic_loss": (lambda ex, st, l: LossV())},
+               requires=[], frame_fields=False, ensures=["delayed_td3(self)"], replay="c08:soft_update")
+
+    # multi-agent tails: MADDPG.learn blends every agent's target actor and critic with ITS OWN online networks after every learn step;
+    # MATD3.learn does so for the three pairs of every agent exactly when the (already advanced) counter is a multiple of policy_freq
+    CNOW = z3.Int("learn_counter_now")
+
+    def ma_tail_self(cls, groups):
+        def mk(ex, st, label):
+            blended.clear()
+            o = Obj("model." + cls, label="self")
+            for gname in groups:
+                o.fields[gname] = [NetS2(f"{gname}[{i}]") for i in range(3)]
+            o.fields.update(dict(policy_freq=PF, learn_counter={"agent_0": CNOW, "agent_1": CNOW, "other_0": CNOW}, agent_ids=["agent_0", "agent_1", "other_0"],
+                                 soft_update=Fn(model=lambda ex, st, a, k: blended.append((getattr(a[0], "name", None), getattr(a[1], "name", None))), name="soft_update")))
+            return o
+        return mk
+
+    def ma_blended(pairs, due):
+        want = sorted((f"{a_}[{i}]", f"{b_}[{i}]") for a_, b_ in pairs for i in range(3))
+        got = sorted(blended)
+        return z3.And(z3.Implies(due, z3.BoolVal(got == want)), z3.Implies(z3.Not(due), z3.BoolVal(got == [])))
+    P.specns.update(dict(
+        maddpg_blended=lambda: ma_blended([("actors", "actor_targets"), ("critics", "critic_targets")], z3.BoolVal(True)),
+        matd3_blended=lambda: ma_blended([("actors", "actor_targets"), ("critics_1", "critic_targets_1"), ("critics_2", "critic_targets_2")], CNOW % PF == 0)))
+    P.contract("agilerl.algorithms.maddpg.MADDPG.learn", variant="target-updates",
+               region=region("for actor, actor_target, critic, critic_target in zip", "for actor, actor_target, critic, critic_target in zip"),
+               params={"self": ma_tail_self("MADDPG", ["actors", "actor_targets", "critics", "critic_targets"]), "experiences": "opaque", "loss_dict": "opaque"},
+               requires=[], frame_fields=False, ensures=["maddpg_blended()"], replay="c08:soft_update")
+    P.contract("agilerl.algorithms.matd3.MATD3.learn", variant="target-updates",
+               region=region("if self.learn_counter[agent_id] % self.policy_freq", "if self.learn_counter[agent_id] % self.policy_freq"),
+               params={"self": ma_tail_self("MATD3", ["actors", "actor_targets", "critics_1", "critic_targets_1", "critics_2", "critic_targets_2"]),
+                       "experiences": "opaque", "loss_dict": "opaque", "agent_id": (lambda ex, st, l: "other_0")},
+               requires=[], frame_fields=False, ensures=["matd3_blended()"], replay="c08:soft_update")
 
     # DQN.update, one generic batch row with NA actions (symbolic): plain DQN bootstraps with max_a Q_target(s', a); double DQN with
     # Q_target(s', argmax_a Q_online(s', a)); the regressed value is Q_online(s, stored action); the criterion gets exactly (that, y_j)
@@ -544,6 +637,11 @@ def build(tier):
         bad = [k for k, v in checks.items() if not v]
         return not bad, ("all wiring facts hold: " + ", ".join(checks)) if not bad else ("wiring facts violated: " + ", ".join(bad))
     P.syntactic.append(("learners.target-sources-and-updates", wiring))
+    P.native.append(dict(name="tracking", adapter="c08:soft_update", thorough_only=True, payload={"mode": "search"},
+                         bound="DQN (plain/double), CQN, RainbowDQN, DDPG, TD3: consecutive learn steps on random batches, directly and after clone; "
+                               "every target weight = tau*online + (1-tau)*previous when an update is due, unchanged otherwise"))
+    P.native.append(dict(name="done_masks_next_obs", adapter="c08:bellman", thorough_only=True, payload={"mode": "search"},
+                         bound="DQN, CQN, DDPG, TD3: batches of done transitions, same seed, only next_obs differs: updated weights identical"))
     P.assumptions += ["A-REAL; done flags are 0/1", "Q_target is an arbitrary real (network outputs are free)",
                       "that the minimised quantity is the stated loss needs autograd semantics (trusted, DESIGN 6)"]
     P.uncovered += ["that the centralised critics of MADDPG/MATD3 consume their two inputs in the stacked order (nn forward); agent_ids absent from a sampled batch",
